@@ -88,6 +88,24 @@ var ys = []int{10, 20}
 var zs = []int{}
 var rows = [][]int{{1, 2}, {}, {3}}
 
+// an overloaded function taking a block lambda: a call visit(x => {...}, 1) does not fit the first overload, so the
+// lambda body is compiled once more for the second one
+func visitTagged(fn func(x int), tag string) {
+	fn(1)
+}
+
+func visitTimes(fn func(x float64), n int) {
+	for n > 0 {
+		fn(1.5)
+		n--
+	}
+}
+
+func visit = (
+	visitTagged
+	visitTimes
+)
+
 func emit(k int, v string, t string, xv string, xt string) {
 	fmt.Printf("%d\tv=%s\tt=%s\txv=%s\txt=%s\n", k, v, t, xv, xt)
 }
